@@ -71,32 +71,34 @@ Definition bsplit (sep : byte) (l : list byte) : list (list byte) := split_on se
 
 Definition mem_b (c : byte) (l : list byte) : bool := existsb (is_b c) l.
 
-(* _unpack_filter_substrings_value *)
+(* _unpack_filter_substrings_value: the loop over the '*'-separated parts ([n] parts in all) *)
+Fixpoint sub_go (n : nat) (off len : Z) (idx : nat) (ps : list (list byte)) (first : option (list byte))
+                (vals : list (list byte)) (fin : option (list byte)) {struct ps}
+  : fres (option (list byte) * list (list byte) * option (list byte)) :=
+  match ps with
+  | [] => FOk (first, vals, fin)
+  | v :: rest =>
+      if Nat.eqb idx 0 then
+        match v with
+        | [] => sub_go n off len (S idx) rest first vals fin
+        | _ => u <-f unpack_value v off len ;; sub_go n off len (S idx) rest (Some u) vals fin
+        end
+      else if Nat.eqb idx (n - 1) then
+        match v with
+        | [] => sub_go n off len (S idx) rest first vals fin
+        | _ => u <-f unpack_value v off len ;; sub_go n off len (S idx) rest first vals (Some u)
+        end
+      else
+        match v with
+        | [] => FErr (FSyn off len)
+        | _ => u <-f unpack_value v off len ;; sub_go n off len (S idx) rest first (vals ++ [u]) fin
+        end
+  end.
+
 Definition unpack_substrings (value : list byte) (off len : Z)
   : fres (option (list byte) * list (list byte) * option (list byte)) :=
   let parts := bsplit c_star value in
-  let n := length parts in
-  (fix go (idx : nat) (ps : list (list byte)) (first : option (list byte)) (vals : list (list byte))
-          (fin : option (list byte)) {struct ps} :=
-     match ps with
-     | [] => FOk (first, vals, fin)
-     | v :: rest =>
-         if Nat.eqb idx 0 then
-           match v with
-           | [] => go (S idx) rest first vals fin
-           | _ => u <-f unpack_value v off len ;; go (S idx) rest (Some u) vals fin
-           end
-         else if Nat.eqb idx (n - 1) then
-           match v with
-           | [] => go (S idx) rest first vals fin
-           | _ => u <-f unpack_value v off len ;; go (S idx) rest first vals (Some u)
-           end
-         else
-           match v with
-           | [] => FErr (FSyn off len)
-           | _ => u <-f unpack_value v off len ;; go (S idx) rest first (vals ++ [u]) fin
-           end
-     end) 0%nat parts None [] None.
+  sub_go (length parts) off len 0%nat parts None [] None.
 
 (* _unpack_filter_extensible_header *)
 Definition dn_lit : list byte := [x64; x6e].
@@ -170,51 +172,87 @@ Definition unpack_simple (view : list byte) (off len : Z) : fres (filter * Z) :=
         else FOk (FEq attribute b_value, read).
 
 (* _unpack_filter / _unpack_complex_filter: mutual recursion, [d] = remaining Python recursion
-   budget (one unit per pair of frames) *)
+   budget (one unit per pair of frames).  The two while-loops are written as functions of the
+   recursive call they make. *)
+Definition finish_filter (off len read : Z) (parens : option Z) (parsed : option filter) : fres (filter * Z) :=
+  match parens with
+  | Some p => FErr (FSyn (off + p) (len - p))
+  | None => match parsed with
+            | None => FErr (FSyn off len)
+            | Some f => FOk (f, read)
+            end
+  end.
+
+Fixpoint filter_loop (cplx : Z -> Z -> fres (filter * Z)) (view : list byte) (off len : Z) (cur : list byte) (n : Z)
+                     (fuel : nat) (read : Z) (parens : option Z) (parsed : option filter) {struct fuel}
+  : fres (filter * Z) :=
+  match fuel with
+  | O => FErr (FCrash OutOfFuel)
+  | S fu =>
+      if n <=? read then finish_filter off len read parens parsed
+      else
+        let ch := at_ cur read in
+        if is_b ch c_sp then filter_loop cplx view off len cur n fu (read + 1) parens parsed
+        else if is_b ch c_rp then
+          match parens with
+          | None => FErr (FSyn (off + read) 1)
+          | Some _ => finish_filter off len (read + 1) None parsed
+          end
+        else
+          match parens with
+          | Some _ =>
+              if is_b ch c_lp then FErr (FSyn (off + read) 1)
+              else
+                '(f, sub_read) <-f
+                   (if is_b ch c_bang || is_b ch c_amp || is_b ch c_bar
+                    then cplx (off + read) (len - read)
+                    else unpack_simple view (off + read) (len - read)) ;;
+                filter_loop cplx view off len cur n fu (read + sub_read) parens (Some f)
+          | None =>
+              if is_b ch c_lp then filter_loop cplx view off len cur n fu (read + 1) (Some read) parsed
+              else
+                '(f, r) <-f unpack_simple view (off + read) (len - read) ;;
+                finish_filter off len (read + r) parens (Some f)
+          end
+  end.
+
+Definition finish_complex (off len : Z) (ctype : byte) (read : Z) (fs : list filter) : fres (filter * Z) :=
+  match fs with
+  | [] => FErr (FSyn off len)
+  | f0 :: _ =>
+      if is_b ctype c_bang then FOk (FNot f0, read)
+      else if is_b ctype c_amp then FOk (FAnd fs, read)
+      else FOk (FOr fs, read)
+  end.
+
+Fixpoint complex_loop (uf : Z -> Z -> fres (filter * Z)) (off len : Z) (cur : list byte) (n : Z) (ctype : byte)
+                      (fuel : nat) (read : Z) (fs : list filter) {struct fuel} : fres (filter * Z) :=
+  match fuel with
+  | O => FErr (FCrash OutOfFuel)
+  | S fu =>
+      if n <=? read then finish_complex off len ctype read fs
+      else
+        let ch := at_ cur read in
+        if is_b ch c_sp then complex_loop uf off len cur n ctype fu (read + 1) fs
+        else if is_b ch c_lp then
+          match fs with
+          | _ :: _ => if is_b ctype c_bang then FErr (FSyn off len) else
+              '(f, r) <-f uf (off + read) (len - read - 1) ;;
+              complex_loop uf off len cur n ctype fu (read + r) (fs ++ [f])
+          | [] =>
+              '(f, r) <-f uf (off + read) (len - read - 1) ;;
+              complex_loop uf off len cur n ctype fu (read + r) (fs ++ [f])
+          end
+        else if is_b ch c_rp then finish_complex off len ctype read fs
+        else FErr (FSyn (off + read) 1)
+  end.
+
 Fixpoint unpack_filter (d : nat) (view : list byte) (off len : Z) {struct d} : fres (filter * Z) :=
   match d with
   | O => FErr (FCrash RecursionErr)
   | S d' =>
       let cur := sl view off len in
-      let n := zlen cur in
-      (fix loop (fuel : nat) (read : Z) (parens : option Z) (parsed : option filter) {struct fuel} :=
-         let finish (read : Z) (parens : option Z) (parsed : option filter) : fres (filter * Z) :=
-           match parens with
-           | Some p => FErr (FSyn (off + p) (len - p))
-           | None => match parsed with
-                     | None => FErr (FSyn off len)
-                     | Some f => FOk (f, read)
-                     end
-           end in
-         match fuel with
-         | O => FErr (FCrash OutOfFuel)
-         | S fu =>
-             if n <=? read then finish read parens parsed
-             else
-               let ch := at_ cur read in
-               if is_b ch c_sp then loop fu (read + 1) parens parsed
-               else if is_b ch c_rp then
-                 match parens with
-                 | None => FErr (FSyn (off + read) 1)
-                 | Some _ => finish (read + 1) None parsed
-                 end
-               else
-                 match parens with
-                 | Some _ =>
-                     if is_b ch c_lp then FErr (FSyn (off + read) 1)
-                     else
-                       '(f, sub_read) <-f
-                          (if is_b ch c_bang || is_b ch c_amp || is_b ch c_bar
-                           then unpack_complex d' view (off + read) (len - read)
-                           else unpack_simple view (off + read) (len - read)) ;;
-                       loop fu (read + sub_read) parens (Some f)
-                 | None =>
-                     if is_b ch c_lp then loop fu (read + 1) (Some read) parsed
-                     else
-                       '(f, r) <-f unpack_simple view (off + read) (len - read) ;;
-                       finish (read + r) parens (Some f)
-                 end
-         end) (S (length cur)) 0 None None
+      filter_loop (unpack_complex d' view) view off len cur (zlen cur) (S (length cur)) 0 None None
   end
 
 with unpack_complex (d : nat) (view : list byte) (off len : Z) {struct d} : fres (filter * Z) :=
@@ -222,36 +260,7 @@ with unpack_complex (d : nat) (view : list byte) (off len : Z) {struct d} : fres
   | O => FErr (FCrash RecursionErr)
   | S d' =>
       let cur := sl view off len in
-      let n := zlen cur in
-      let ctype := at_ cur 0 in
-      (fix loop (fuel : nat) (read : Z) (fs : list filter) {struct fuel} :=
-         let finish (read : Z) (fs : list filter) : fres (filter * Z) :=
-           match fs with
-           | [] => FErr (FSyn off len)
-           | f0 :: _ =>
-               if is_b ctype c_bang then FOk (FNot f0, read)
-               else if is_b ctype c_amp then FOk (FAnd fs, read)
-               else FOk (FOr fs, read)
-           end in
-         match fuel with
-         | O => FErr (FCrash OutOfFuel)
-         | S fu =>
-             if n <=? read then finish read fs
-             else
-               let ch := at_ cur read in
-               if is_b ch c_sp then loop fu (read + 1) fs
-               else if is_b ch c_lp then
-                 match fs with
-                 | _ :: _ => if is_b ctype c_bang then FErr (FSyn off len) else
-                     '(f, r) <-f unpack_filter d' view (off + read) (len - read - 1) ;;
-                     loop fu (read + r) (fs ++ [f])
-                 | [] =>
-                     '(f, r) <-f unpack_filter d' view (off + read) (len - read - 1) ;;
-                     loop fu (read + r) (fs ++ [f])
-                 end
-               else if is_b ch c_rp then finish read fs
-               else FErr (FSyn (off + read) 1)
-         end) (S (length cur)) 1 []
+      complex_loop (unpack_filter d' view) off len cur (zlen cur) (at_ cur 0) (S (length cur)) 1 []
   end.
 
 (* ---- str -> octets: filter.strip() then .encode("utf-8", errors="surrogateescape") *)
